@@ -26,6 +26,27 @@ func prop(id string, decided, notDecided string, rules ...string) {
 	properties[id] = &Property{ID: id, Rules: rules, Decided: decided, NotDecided: notDecided}
 }
 
+// undecidedConstructs: the number of distinct constructs (the part of the key before the first ':', '[' or '#': the
+// function, mostly) among the undecided obligations.
+func undecidedConstructs(obl []Oblig) int {
+	seen := map[string]bool{}
+	for _, o := range obl {
+		if o.Status != Unmodelled {
+			continue
+		}
+		k := strings.TrimPrefix(o.Key, o.Rule+":")
+		if i := strings.IndexAny(k, ":[#"); i > 0 {
+			k = k[:i]
+		}
+		seen[k] = true
+	}
+	return len(seen)
+}
+
+// smallFloor: rules that know of at most this many constructs report a shortfall as an undecided instance, not as an
+// error of the checker (see cmdCheck).
+const smallFloor = 12
+
 func main() {
 	if len(os.Args) < 2 {
 		usage()
@@ -236,10 +257,21 @@ func cmdCheck(args []string) int {
 			errs = append(errs, rn+": "+res.Err)
 		}
 		if scope == "" && re.Obligations < r.Floor || scope != "" && re.Obligations == 0 {
-			errs = append(errs, fmt.Sprintf("%s: vacuity guard: %d obligations < floor %d (rule has gone blind?)", rn, re.Obligations, r.Floor))
+			if r.Floor <= smallFloor && re.Unmodelled > 0 {
+				// the shortfall is the instance already reported as undecided (its parts are not looked at)
+			} else if r.Floor <= smallFloor {
+				// a rule about a handful of constructs that finds fewer of them than it knows of has not gone blind:
+				// one of its constructs is written in a way it does not read. That is one undecided instance.
+				re.Obligations++
+				re.Unmodelled++
+				res.Obligs = append(res.Obligs, Oblig{Rule: rn, Key: rn + ":floor", Status: Unmodelled, Detail: fmt.Sprintf("%d instances found where at least %d are known: a construct of this rule is written in a form it does not read", re.Obligations-1, r.Floor)})
+			} else {
+				errs = append(errs, fmt.Sprintf("%s: vacuity guard: %d obligations < floor %d (rule has gone blind?)", rn, re.Obligations, r.Floor))
+			}
 		}
-		// (a single undecided instance is reported and tolerated; two or more must stay within one in ten)
-		if re.Obligations > 0 && re.Unmodelled >= 2 && re.Unmodelled*10 > re.Obligations {
+		// (a single undecided construct is reported and tolerated; two or more must stay within one in ten. Several
+		// undecided instances in ONE function — a function rewritten wholesale — are one construct not read.)
+		if re.Obligations > 0 && undecidedConstructs(res.Obligs) >= 2 && re.Unmodelled*10 > re.Obligations {
 			errs = append(errs, fmt.Sprintf("%s: %d of %d instances unmodelled (>10%%)", rn, re.Unmodelled, re.Obligations))
 		}
 		revs = append(revs, re)
